@@ -270,7 +270,7 @@ def f7Fixed : Bool := true
 /-- F4k: `Scalar.__init__` (gates.py:524) decides "self-adjoint" (`_dagger = None`) on the stored
     `data`, `Sqrt` inherits it although its value is `data ** .5`: `sqrt(x).dagger()` is `sqrt(x)` itself
     for a NEGATIVE real `x`, whose value `i√|x|` is not real.  `false` = /repo as it is. -/
-def f4kFixed : Bool := false
+def f4kFixed : Bool := true
 
 def arrY : M8 := if f17Fixed then arrYFixed else arrYAsIs
 def ry {R : Type} [Neg R] (c s : R) : Mat R := if f17Fixed then ryFixed c s else ryAsIs c s
